@@ -7,9 +7,9 @@ Import ListNotations.
 Local Open Scope R_scope.
 
 (** ** the shared scatter step *)
-Lemma push_scatter_spec (a : spec R) newshape f vals msk labels K :
+Lemma push_scatter_spec (a : spec R) newshape f vals msk labels fl K :
   inr newshape K ->
-  let o := push_scatter newshape f vals msk a labels in
+  let o := push_scatter newshape f vals msk a labels fl in
   va o K = fiber_sum (sh a) f vals K /\ mk o K = is_corner newshape K || fiber_any (sh a) f msk K.
 Proof. intros HK. simpl. split.
   - rewrite (lookup_tabulate 0 newshape _ K HK).
@@ -18,9 +18,9 @@ Proof. intros HK. simpl. split.
   - rewrite (lookup_tabulate true newshape _ K HK).
     rewrite (scatter_spec bool orb false orb_assoc orb_comm orb_false_l). now rewrite fiber_any_big. Qed.
 
-Lemma push_scatter_PF (a : spec R) newshape f vals msk labels :
-  PFR (sh a) f vals newshape (va (push_scatter newshape f vals msk a labels)).
-Proof. apply PFR_fiber. intros K HK. apply (push_scatter_spec a newshape f vals msk labels K HK). Qed.
+Lemma push_scatter_PF (a : spec R) newshape f vals msk labels fl :
+  PFR (sh a) f vals newshape (va (push_scatter newshape f vals msk a labels fl)).
+Proof. apply PFR_fiber. intros K HK. apply (push_scatter_spec a newshape f vals msk labels fl K HK). Qed.
 
 (** ** combine_two_pops *)
 Lemma maps_merge2 S t0 t1 : (t0 < length S)%nat -> (t1 < length S)%nat ->
@@ -35,7 +35,7 @@ Theorem combine_two_spec (a : spec R) p q :
   (1 <= p <= length (sh a))%nat -> (1 <= q <= length (sh a))%nat -> p <> q ->
   let t0 := pred (Nat.min p q) in let t1 := pred (Nat.max p q) in
   let o := combine_two_pops p q a in
-  sh o = merge2 (fun x y => x + y - 1)%nat 0%nat t0 t1 (sh a) /\ fo o = false /\
+  sh o = merge2 (fun x y => x + y - 1)%nat 0%nat t0 t1 (sh a) /\ fo o = fo a /\
   ids o = option_map (merge2 (fun x y => (x ++ "+" ++ y)%string) EmptyString t0 t1) (ids a) /\
   (forall K, inr (sh o) K -> va o K = fiber_sum (sh a) (merge2 Nat.add 0%nat t0 t1) (va a) K /\
                              mk o K = is_corner (sh o) K || fiber_any (sh a) (merge2 Nat.add 0%nat t0 t1) (mk a) K) /\
@@ -162,7 +162,7 @@ Section CombinePops.
                    (va b) (mk b) b
                    (match ids b with
                     | Some l => Some (merge2 (fun x y => (x ++ "+" ++ y)%string) EmptyString merged_axis t l)
-                    | None => None end).
+                    | None => None end) (fo b).
   Proof. intros Ht. unfold combine_two_pops. replace (Nat.min (S merged_axis) (S t)) with (S merged_axis) by lia.
     replace (Nat.max (S merged_axis) (S t)) with (S t) by lia. reflexivity. Qed.
 
@@ -172,20 +172,21 @@ Section CombinePops.
     let f := fun I : idx => fold_left (fun l t => merge2 Nat.add 0%nat merged_axis t l) ts' I in
     sh r = fold_left (fun l t => merge2 (fun x y => x + y - 1)%nat 0%nat merged_axis t l) ts' (sh b) /\
     PFR (sh b) f (va b) (sh r) (va r) /\ maps (sh b) (sh r) f /\
-    ids r = option_map (fold_left (fun l t => merge2 (fun x y => (x ++ "+" ++ y)%string) EmptyString merged_axis t l) ts') (ids b).
+    ids r = option_map (fold_left (fun l t => merge2 (fun x y => (x ++ "+" ++ y)%string) EmptyString merged_axis t l) ts') (ids b) /\
+    fo r = fo b.
   Proof. induction ts' as [|t ts' IH]; intros b Hs H0 Hl; simpl.
     - repeat split; [apply PF_id; monR | intros I HI; exact HI | destruct (ids b); reflexivity].
     - inversion Hs as [|? ? Hs' Hgt]; subst. inversion H0 as [|? ? Ht0 H0']; subst. inversion Hl as [|? ? Htl Hl']; subst.
       cbv beta in *. rewrite (step_axes b t Ht0).
-      set (b' := push_scatter _ _ _ _ b _).
+      set (b' := push_scatter _ _ _ _ b _ _).
       assert (Lb' : length (sh b') = pred (length (sh b))).
       { unfold b'. simpl. unfold merge2. rewrite remove_nth_length; rewrite set_nth_length; lia. }
       assert (Hl'' : Forall (fun u => (u < length (sh b'))%nat) ts').
       { rewrite Forall_forall in *. intros u Hu. specialize (Hgt u Hu). specialize (Hl' u Hu). lia. }
-      destruct (IH b' Hs' H0' Hl'') as (E & P & Mp & Ei).
+      destruct (IH b' Hs' H0' Hl'') as (E & P & Mp & Ei & Ef).
       assert (M1 : maps (sh b) (sh b') (merge2 Nat.add 0%nat merged_axis t)).
       { unfold b'. simpl. apply maps_merge2; lia. }
-      split; [exact E|]. split; [|split].
+      split; [exact E|]. split; [|split; [|split]]; [| | |exact Ef].
       + eapply (PF_comp R Rplus 0 Rp_assoc Rp_comm Rp_0_l); [apply push_scatter_PF | exact P | exact M1].
       + intros I HI. apply Mp. now apply M1.
       + rewrite Ei. unfold b'. simpl. destruct (ids b); reflexivity. Qed.
@@ -239,16 +240,17 @@ Section CombinePops.
     (forall K, inr (sh o) K -> va o K = fiber_sum (sh a) (merge_idx t0 ts) (va a) K) /\
     total o = total a /\
     (forall l, ids a = Some l -> length l = d -> ids o = Some (merge_labels t0 ts l)) /\
-    (ids a = None -> ids o = None).
+    (ids a = None -> ids o = None) /\
+    fo o = fo a.
   Proof. intros t0 ts o. subst t0 ts. destruct ds_range as [R0 R1].
-    destruct (iter_combine ds a ds_desc R0 R1) as (E & P & Mp & Ei).
+    destruct (iter_combine ds a ds_desc R0 R1) as (E & P & Mp & Ei & Ef).
     set (r := fold_left (fun r t => combine_two_pops (S merged_axis) (S t) r) ds a) in *.
     assert (Esh : sh o = sh r /\ va o = va r).
     { unfold o. rewrite combine_pops_unfold. cbv zeta. fold r. destruct (ids a), (ids r); split; reflexivity. }
     destruct Esh as [Esh Eva].
     assert (P' : PFR (sh a) (merge_idx merged_axis other_axes) (va a) (sh r) (va r)).
     { eapply (PF_ext R Rplus 0); [| | |exact P]; auto. intros I HI. apply loop_idx. apply (inr_length _ _ HI). }
-    split; [|split; [|split; [|split]]].
+    split; [|split; [|split; [|split; [|split]]]].
     - intros H1. rewrite Esh, E. now apply loop_shape.
     - intros K HK. rewrite Esh in HK. rewrite Eva. apply (proj1 (PFR_fiber _ _ _ _ _) P' K HK).
     - rewrite !total_big, Esh, Eva. eapply (PF_total R Rplus 0 Rp_assoc Rp_comm Rp_0_l); [exact P'|].
@@ -257,7 +259,8 @@ Section CombinePops.
       rewrite iter_merge2; auto using ds_desc; [|now rewrite Hlen].
       rewrite fold_remove_set by auto. rewrite set_nth_set_nth. unfold merge_labels. rewrite drop_others.
       now rewrite isort_others.
-    - intros Hn. unfold o. rewrite combine_pops_unfold. cbv zeta. fold r. rewrite Hn. simpl. rewrite Ei, Hn. reflexivity. Qed.
+    - intros Hn. unfold o. rewrite combine_pops_unfold. cbv zeta. fold r. rewrite Hn. simpl. rewrite Ei, Hn. reflexivity.
+    - unfold o. rewrite combine_pops_unfold. cbv zeta. fold r. rewrite <- Ef. destruct (ids a), (ids r); reflexivity. Qed.
 End CombinePops.
 
 (** the result depends only on the SET of populations named in the argument *)
@@ -275,7 +278,7 @@ Theorem misc_combine_2d (a : spec R) s0 s1 idxs :
 Proof. intros Hs. unfold misc_combine_pops. rewrite Hs. eexists. split; [reflexivity|]. simpl sh.
   split; [reflexivity|]. split; [reflexivity|]. split; [reflexivity|]. split.
   - intros K HK. destruct (push_scatter_spec a [s0 + s1 - 1]%nat (fun I => [nth 0 I 0 + nth 1 I 0]%nat) (va a)
-                             (fun _ => false) None K HK) as [E1 E2]. rewrite Hs in E1. split; [exact E1|]. rewrite E2.
+                             (fun _ => false) None false K HK) as [E1 E2]. rewrite Hs in E1. split; [exact E1|]. rewrite E2.
     rewrite fiber_any_big. rewrite big_e; [apply orb_false_r | apply orb_false_l|].
     intros I _. destruct (idx_eqb _ K); reflexivity.
   - rewrite !total_big. eapply (PF_total R Rplus 0 Rp_assoc Rp_comm Rp_0_l); [apply push_scatter_PF|].
@@ -292,14 +295,14 @@ Theorem misc_combine_3d (a : spec R) s0 s1 s2 x y z :
 Proof. intros Hs Hxyz. unfold misc_combine_pops. rewrite Hs.
   assert (G : forall x y z, (x < 3)%nat -> (y < 3)%nat -> (z < 3)%nat ->
     let o := push_scatter [nth x [s0; s1; s2] 0 + nth y [s0; s1; s2] 0 - 1; nth z [s0; s1; s2] 0]%nat
-                          (fun I => [nth x I 0 + nth y I 0; nth z I 0]%nat) (va a) (fun _ => false) a None in
+                          (fun I => [nth x I 0 + nth y I 0; nth z I 0]%nat) (va a) (fun _ => false) a None false in
     (forall K, inr (sh o) K ->
        va o K = fiber_sum [s0; s1; s2] (fun I => [nth x I 0 + nth y I 0; nth z I 0]%nat) (va a) K /\ mk o K = is_corner (sh o) K) /\
     total o = total a).
   { intros x' y' z' Hx Hy Hz o. split.
     - intros K HK. destruct (push_scatter_spec a [nth x' [s0; s1; s2] 0 + nth y' [s0; s1; s2] 0 - 1; nth z' [s0; s1; s2] 0]%nat
                                (fun I => [nth x' I 0 + nth y' I 0; nth z' I 0]%nat) (va a)
-                               (fun _ => false) None K HK) as [E1 E2]. rewrite Hs in E1. split; [exact E1|]. unfold o. rewrite E2.
+                               (fun _ => false) None false K HK) as [E1 E2]. rewrite Hs in E1. split; [exact E1|]. unfold o. rewrite E2.
       rewrite fiber_any_big. rewrite big_e; [apply orb_false_r | apply orb_false_l|].
       intros I _. destruct (idx_eqb _ K); reflexivity.
     - rewrite !total_big. eapply (PF_total R Rplus 0 Rp_assoc Rp_comm Rp_0_l); [apply push_scatter_PF|].
